@@ -476,6 +476,16 @@ def install(rec):
         if k.get("rehearse"):
             return
         where = (where,) if isinstance(where, (int, np.integer)) else tuple(where)
+        if isinstance(G, (list, tuple)):
+            # several operators at once: one value each
+            outs = list(out) if isinstance(out, (list, tuple)) else list(np.asarray(to_numpy(out)).reshape(-1))
+            if len(outs) != len(G):
+                chk(self, "local_expectation", False, float("inf"), 0.0, {"where": list(where), "note": "number_of_values"},
+                    (len(where), "multi"))
+                return
+            for g_, o_ in zip(G, outs):
+                j_expec(sh, o_, self, g_, where, *a, **k)
+            return
         G = np.asarray(to_numpy(G), dtype=complex).reshape(2 ** len(where), 2 ** len(where))
         ref = np.trace(G @ rho_of(sh, where))
         if k.get("normalized") is False or (is_mps(self) and not k.get("normalized", True)):
